@@ -1,4 +1,4 @@
-/-! Concrete reachable states (capacity 2, one producer) used as non-vacuity witnesses by the property files. -/
+/- Concrete reachable states (capacity 2, one producer) used as non-vacuity witnesses by the property files. -/
 import Babylon.BQ.Props
 namespace Babylon.BQ
 open Babylon.Core Babylon.Gen.BQ
